@@ -16,6 +16,7 @@ EXPLANATION = (
 RULE = "one obligation per acquire site x exit class, per limit write site, per Pending return site"
 TRUSTED = ["std atomics", "rustc MIR construction incl. drop/unwind/coroutine-drop edges", "may-unwind policy table (DESIGN §2.2)"]
 ASSUMPTIONS = ["min_limit <= max_limit", "decrease factor in [0,1]", "limits < 2^53"]
+CONFIG_CRATES = ["tower_resilience_adaptive", "tower_resilience_core"]
 TECHNIQUE = "static analysis of built MIR: acquire/release pairing over all exits (unwind + coroutine-drop edges), abstract interpretation (clamp domain), guard dominance"
 
 ALG_TRAIT = "tower_resilience_adaptive::algorithm::ConcurrencyAlgorithm"
